@@ -37,11 +37,51 @@ def log_derived(I, t, depth=0):
     return False
 
 
+def captured_per_log(I, val):
+    """a function object (lambda / nested def / bound method) kept in shared state drags along what it closes over: name of a
+    captured per-log object or log-derived value, else None"""
+    import ast as _ast
+    from ..interp import Instance
+    from ..terms import FuncV
+    alts = []
+
+    def lv(t):
+        if isinstance(t, Ite):
+            lv(t.a), lv(t.b)
+        else:
+            alts.append(t)
+    lv(val)
+    for t in alts:
+        if not isinstance(t, FuncV):
+            continue
+        if t.selfv is not None and isinstance(t.selfv, Ref) and not getattr(I.heap.get(t.selfv.oid), "shared", None):
+            return "the object the method is bound to"
+        cf = getattr(t.info, "closure_frame", None)
+        if cf is None:
+            continue
+        params = {a.arg for a in t.info.node.args.args + t.info.node.args.kwonlyargs + t.info.node.args.posonlyargs}
+        for n in _ast.walk(t.info.node):
+            if isinstance(n, _ast.Name) and n.id not in params and n.id in cf.env:
+                v = cf.env[n.id]
+                if isinstance(v, Ref):
+                    o = I.heap.get(v.oid)
+                    if isinstance(o, Instance) and not getattr(o, "shared", None):
+                        return "%s (a %s object of the log being decoded)" % (n.id, o.cls.name)
+                if not isinstance(v, FuncV) and log_derived(I, v):
+                    return n.id
+    return None
+
+
 def classify_store(I, e, store):
     """shared_mutation event e with its dict_store/attr_store/append companion `store`"""
     label, how, ref = e.data
     if store is None:
         return "unknown", "mutation %s of %s" % (how, label)
+    if store.kind in ("dict_store", "attr_store", "global_store", "class_store", "append"):
+        cap = captured_per_log(I, store.data[2] if store.kind != "append" else store.data[1])
+        if cap:
+            return "bad", "a function that closes over %s is kept in shared state: every later decode that uses it works on the " \
+                          "first log's data" % cap
     if store.kind == "dict_store":
         key, val = store.data[1], store.data[2]
         if isinstance(val, Op) and val.op == "import_module":
@@ -74,6 +114,12 @@ def classify_store(I, e, store):
         val = store.data[2]
         if log_derived(I, val):
             return "bad", "a value derived from the log being decoded is stored in shared state"
+        # ... or WHICH value is stored is decided by the log (the condition of the store inside its function)
+        entry = [c for c in I.events[:store.seq] if c.kind == "call" and c.data[0] == store.func]
+        base = set(conj(entry[-1].guard)) if entry else set()
+        local = [c for c in conj(store.guard) if c not in base]
+        if any(log_derived(I, c) for c in local):
+            return "bad", "what is stored in shared state is selected by the log being decoded (store under %s)" % (repr(and_(*local))[:100],)
         return "flag", None
     return "bad", "%s on an object shared by all decodes" % how
 
@@ -142,36 +188,46 @@ def check_decode_state(rep, prog, runs):
     rule = "C19.R3.shared-state-writes"
     seen = set()
     n = 0
+    # a write site is reached by several entry points with different arguments: it is judged in every one of them and
+    # reported once, with the worst verdict (a key that is a plain parameter in one run is a decoded field in another)
+    sites = {}
     for label, I in runs:
         evs = I.events
         for i, e in enumerate(evs):
             if e.kind != "shared_mutation":
                 continue
             key = (e.func, getattr(e.node, "lineno", 0), e.data[0], e.data[1])
-            if key in seen:
-                continue
-            seen.add(key)
-            n += 1
             store = None
             for x in evs[i + 1:i + 4]:
                 if x.kind in ("dict_store", "attr_store", "append", "extend", "listmut", "dictmut", "dict_update", "global_store", "class_store") and x.node is e.node:
                     store = x
                     break
             kind, problem = classify_store(I, e, store)
-            where = e.func
+            verdict = None
             if e.data[0].startswith("class ") or e.data[0].startswith("default argument"):
-                rep.fail("C19.R2.per-instance-accumulators", where, e.node, "per-log data is accumulated in %s, which is shared by all "
-                         "instances: values of an earlier log appear in a later one" % e.data[0], node=e.node)
-                continue
-            if kind == "bad" or kind == "unknown":
-                rep.fail(rule, where, e.node, "write to shared state (%s): %s" % (e.data[0], problem), node=e.node)
-                continue
-            if kind == "import-cache-missing":
+                verdict = ("fail", "C19.R2.per-instance-accumulators", "per-log data is accumulated in %s, which is shared by all "
+                           "instances: values of an earlier log appear in a later one" % e.data[0])
+            elif kind == "bad" or kind == "unknown":
+                verdict = ("fail", rule, "write to shared state (%s): %s" % (e.data[0], problem))
+            elif kind == "import-cache-missing":
                 ok, why = missing_store_ok(I, store)
-                rep.check(ok, rule, "%s:%s marks a module missing only when its import failed" % (where.split(".")[-1], getattr(e.node, "lineno", "?")),
-                          where, e.node, why, node=e.node)
+                verdict = ("ok" if ok else "fail", rule, why if not ok else
+                           "%s:%s marks a module missing only when its import failed" % (e.func.split(".")[-1], getattr(e.node, "lineno", "?")))
             else:
-                rep.ok(rule, "%s:%s %s store into %s is a function of its key only" % (where.split(".")[-1], getattr(e.node, "lineno", "?"), kind, e.data[0]))
+                verdict = ("ok", rule, "%s:%s %s store into %s is a function of its key only" % (
+                    e.func.split(".")[-1], getattr(e.node, "lineno", "?"), kind, e.data[0]))
+            old = sites.get(key)
+            if old is None or (old[1][0] == "ok" and verdict[0] == "fail"):
+                sites[key] = (e, verdict)
+    for key, (e, (st_, rl_, msg_)) in sites.items():
+        n += 1
+        seen.add(key)
+        if st_ == "fail":
+            rep.fail(rl_, e.func, e.node, msg_, node=e.node)
+        else:
+            rep.ok(rl_, msg_)
+    for label, I in runs:
+        evs = I.events
         # global rebinding during decode
         for e in evs:
             if e.kind == "global_store" and e.func and not e.func.endswith("<module>") and "." in e.func:
